@@ -9,6 +9,7 @@ CONSTANTS
  FixNifty = TRUE
  AtomicAdopt = TRUE
  RefreshExpected = TRUE
+ ReleaseLast = TRUE
  Free = 1
  Getters = {2,3}
  Releasers = {5,6}
